@@ -110,6 +110,16 @@ CHECKS = {
         "emitted header lines are inspected for CR/LF/NUL, extra cookie attributes and Location cleanliness.",
         "Constructor-supplied headers are outside the statement. Text above U+00FF may be rejected instead of escaped. Redirect targets compared after one percent-decoding.",
     ),
+    "C14": (
+        "exploration",
+        "model-based histories (Hypothesis) + exhaustive 3-step grid over a virtualised file clock (os.stat wrapped before baize is imported) against a per-file model of content, size, timestamps and remembered responses",
+        "Histories of clock advances (0, 0.3, 0.75, 1, 2, 3600 s), rewrites (same/other size), touch, restored-older-mtime and requests carrying the "
+        "validators of earlier responses in 12 forms (ETag, weak, list positions, weak members, near-miss foreign tags, *, Last-Modified, "
+        "both) run against Files and Pages on both interfaces; the model decides which answers are stale (content changed, detectable by the "
+        "mechanism), which must be fresh (size changed or timestamps moved >= 1 s) and which must revalidate (unchanged file, any ETag "
+        "form, *). The (modification x advance x form x app x interface) grid is exhaustive.",
+        "Same size and identical mtime is undetectable by design; Last-Modified-only revalidation of an unchanged file may be 200; timestamps virtual, contents real.",
+    ),
     "C15": (
         "exploration",
         "Hypothesis forms x limits at the exact totals (-1, 0, +1) x chunkings, differential sync/async; instrumented stream and file sink measuring retained bytes on 200 KB - 1 MB parts",
